@@ -15,8 +15,14 @@ Decided structurally (each a necessary condition of the behaviour):
                      inside this layer's (layers_dir, layer_name) classes
   R9 uncached        uncached_layer passes constant DeleteLayer callbacks and cache = false
 Not decided: what the file-system calls do on disk; the lifecycle's restore model.
+
+The rows of R3 are the success outcomes of cached_layer split on every private helper of the handler's module that the
+returned value or a dominating decision depends on (C01_helpers.outcomes2), located by call frame; written values are read
+in normal form (C01_helpers.norm / frame_of), the dispatch into the handler is read as an effect of the entry points.  None
+of it depends on how the handler is cut into functions or on which of `x.f = v` / `S { f: v, ..rest of x }` is written.
 """
-from .lib.effects import Effects, outcomes, MUTATING, REMOVING
+from .lib.effects import Effects, MUTATING, REMOVING
+from .C01_helpers import outcomes2, norm, frame_of
 from .lib.paths import LayerPaths, cls_str, strip, sbom_formats_covered
 from .lib.value import vstr, walk
 
@@ -60,9 +66,12 @@ def definition_field(entry, v, name):
     return v[0] == 'field' and v[2] == name and v[1][0] == 'param' and v[1][1] == entry.path and v[1][2] == 2
 
 
-def types_ok(entry, tv, cache_const):
+def types_ok(entry, tv, cache_const, sl=None):
     """tv must be LayerTypes{launch: def.launch, build: def.build, cache: const}"""
     tv = strip(tv)
+    if tv[0] != 'agg' and sl is not None:
+        # `layer_types(definition, true)`-style private constructors are transparent
+        tv = strip(sl.inline_deep(tv))
     if tv[0] != 'agg' or not (tv[1] or '').endswith('LayerTypes'):
         return False, 'not a LayerTypes literal: ' + vstr(tv)[:120]
     f = dict(tv[3])
@@ -134,7 +143,9 @@ def run(ctx, rep):
     LP = entry_paths(cl)
     # private helpers of the handler's own module whose Option/Result payload is handed on count as part of the handler
     hmod = (ROLES['STRUCT_HL'] or '').rsplit('::', 1)[0]
-    outs = outcomes(E, cl, through=lambda g: g.crate == 'libcnb' and g.path.startswith(hmod + '::') and g.kind != 'Closure')
+    # (outcomes2: case split on every such helper the returned value or the dominating decisions depend on, so the rows
+    # below are the same whether the handler is one function or one function per case)
+    outs = outcomes2(E, cl, lambda g: g.crate == 'libcnb' and g.path.startswith(hmod + '::') and g.kind != 'Closure')
     rows = {}
     for o in outs:
         r, dec = row_of(o)
@@ -265,23 +276,28 @@ def run(ctx, rep):
                 rep.check(not reg, 'R3', tag + '/must-not', site_where, 'no removal before re-dispatch',
                           'ReplaceMetadata path removes/creates entries: %s' % [(e.kind, e.via()) for e in reg[:3]])
             # ---- R1 / R4: data written to the TOML ---------------------------------------------------
-            for e in [e for e in must if e.kind == 'WRITE' and is_toml(klass(e)) and e.call.is_('std::fs::write')]:
-                data = e.args[1]
+            # (`File::create(p)?.write_all(data)` carries its data as a second argument, like `fs::write(p, data)`)
+            for e in [e for e in must if e.kind == 'WRITE' and is_toml(klass(e)) and len(e.args) >= 2 and
+                      e.call.is_('std::fs::write', 'std::fs::File::create', 'std::fs::File::create_new')]:
+                # normal form of the serialised value: closures handed to a shared read-update-write helper are applied
+                data = norm(sl, e.args[1])
                 lcm = find_agg(data, 'LayerContentMetadata')
                 via = e.via()
-                if 'replace_layer_types' in via or (lcm is None and any(x[0] == 'updated' for x in walk(data))):
-                    up = next((x for x in walk(data) if x[0] == 'updated'), None)
-                    if up is None:
+                if r == 'restored-keep' or 'replace_layer_types' in via or (lcm is None and any(x[0] == 'updated' for x in walk(data))):
+                    # R4 on the frame of the written value: base value + replaced fields, for `x.types = t; write(x)` as
+                    # well as `write(S { types: t, metadata: x.metadata })`
+                    fr = frame_of(sl, data, 'LayerContentMetadata')
+                    if fr is None:
                         rep.unproven('R4', tag + '/keep-frame', e.where(), 'keep rewrite is not a read-modify-write: ' + vstr(data)[:160])
                         continue
-                    base = strip(up[1])
+                    base, repl = fr
                     same_file = base[0] == 'call' and base[1].endswith('read_toml_file') and LP.classify(base[2][0]) == ('TOML',)
-                    fields = [p for p, _ in up[2]]
+                    fields = sorted(repl)
                     rep.check(same_file and fields == ['.types'], 'R4', tag + '/keep-frame', e.where(),
                               'serialises the value read from the same TOML with only .types replaced',
                               'keep rewrite is not frame-preserving: base=%s updated=%s' % (vstr(base)[:100], fields))
-                    tv = some_payload(dict(up[2]).get('.types', ('unknown',)))
-                    ok, why = types_ok(cl, tv, True) if tv is not None else (False, 'types not Some(..)')
+                    tv = some_payload(repl.get('.types', ('unknown',)))
+                    ok, why = types_ok(cl, tv, True, sl) if tv is not None else (False, 'types not Some(..)')
                     rep.check(ok, 'R1', tag + '/types', e.where(), why, 'wrong types on keep: ' + why)
                 elif lcm is not None:
                     f = dict(lcm[3])
@@ -297,7 +313,7 @@ def run(ctx, rep):
                                   'written metadata is not the callback\'s replacement: ' + vstr(mv)[:120])
                     else:
                         tv = some_payload(f.get('types', ('unknown',)))
-                        ok, why = types_ok(cl, tv, True) if tv is not None else (False, 'types not Some(..): ' + vstr(f.get('types'))[:80])
+                        ok, why = types_ok(cl, tv, True, sl) if tv is not None else (False, 'types not Some(..): ' + vstr(f.get('types'))[:80])
                         rep.check(ok, 'R1', tag + '/types', e.where(), why, 'wrong types written for %s: %s' % (r, why))
                 else:
                     rep.unproven('R1', tag + '/types', e.where(), 'cannot see the value written to the TOML: ' + vstr(data)[:200])
@@ -357,37 +373,44 @@ def run(ctx, rep):
               'layer writers create classes %s; the delete table knows DIR, TOML, SBOM' % sorted(classes))
 
     # ---- R9 uncached ------------------------------------------------------------------------------
-    hl = [c for c in ul.calls if c.name and c.name == ROLES['STRUCT_HL']]
+    # the dispatch into the handler is an effect of the entry point: its arguments are read in the entry's own terms
+    # whether the call is written in the entry or in a private helper between the two
+    E9 = Effects(prog, sl, vocab={ROLES['STRUCT_HL']: ('DISPATCH', None)}) if ROLES['STRUCT_HL'] else E
+
+    def dispatches(entry):
+        return [e for e in E9.expand(entry, 'may') if e.kind == 'DISPATCH' and e.args is not None and len(e.args) >= 5]
+
+    def constant_action(cv, want):
+        """callback value that ignores its arguments and returns the literal `want`::DeleteLayer"""
+        if cv[0] in ('closure', 'fnitem') and cv[1] in prog.fns and not (cv[0] == 'closure' and cv[2]):
+            body = prog.fns[cv[1]]
+            rv = strip(sl.local(body, 0))
+            if rv[0] != 'agg':
+                rv = strip(sl.inline_deep(rv))
+            return rv[0] == 'agg' and (rv[1] or '').endswith(want) and rv[2] == 'DeleteLayer', 'callback returns ' + vstr(rv)[:80]
+        return False, vstr(cv)[:100]
+
+    hl = dispatches(ul)
     if len(hl) != 1:
         rep.unproven('R9', 'dispatch', ul.file, 'uncached_layer does not call handle_layer exactly once')
     else:
-        c = hl[0]
-        tv = sl.operand(ul, c.args[0])
-        ok, why = types_ok(ul, tv, False)
-        rep.check(ok, 'R9', 'types', c.where(), why, 'uncached_layer requests wrong types: ' + why)
+        d = hl[0]
+        ok, why = types_ok(ul, d.args[0], False, sl)
+        rep.check(ok, 'R9', 'types', d.where(), why, 'uncached_layer requests wrong types: ' + why)
         for i, want in ((1, 'InvalidMetadataAction'), (2, 'RestoredLayerAction')):
-            cv = strip(sl.operand(ul, c.args[i]))
-            good = False
-            why = vstr(cv)[:100]
-            if cv[0] == 'closure' and cv[1] in prog.fns and not cv[2]:
-                body = prog.fns[cv[1]]
-                rv = strip(sl.local(body, 0))
-                good = rv[0] == 'agg' and (rv[1] or '').endswith(want) and rv[2] == 'DeleteLayer'
-                why = 'closure returns ' + vstr(rv)[:80]
-            rep.check(good, 'R9', 'callback%d' % i, c.where(), 'constant %s::DeleteLayer' % want,
+            good, why = constant_action(strip(d.args[i]), want)
+            rep.check(good, 'R9', 'callback%d' % i, d.where(), 'constant %s::DeleteLayer' % want,
                       'uncached_layer callback %d is not the constant DeleteLayer: %s' % (i, why))
-        ln = strip(sl.operand(ul, c.args[3]))
-        ld = strip(sl.operand(ul, c.args[4]))
+        ln, ld = strip(d.args[3]), strip(d.args[4])
         lpu = entry_paths(ul)
-        rep.check(lpu.is_ln(ln) and lpu.is_ld(ld), 'R9', 'target', c.where(), 'operates on (self.layers_dir, layer_name)',
+        rep.check(lpu.is_ln(ln) and lpu.is_ld(ld), 'R9', 'target', d.where(), 'operates on (self.layers_dir, layer_name)',
                   'uncached_layer dispatches on a different layer: %s / %s' % (vstr(ld), vstr(ln)))
     # cached_layer dispatch arguments
-    hl = [c for c in cl.calls if c.name and c.name == ROLES['STRUCT_HL']]
+    hl = dispatches(cl)
     if len(hl) == 1:
-        c = hl[0]
-        ln = strip(sl.operand(cl, c.args[3]))
-        ld = strip(sl.operand(cl, c.args[4]))
-        rep.check(LP.is_ln(ln) and LP.is_ld(ld), 'R9', 'cached-target', c.where(), 'operates on (self.layers_dir, layer_name)',
+        d = hl[0]
+        ln, ld = strip(d.args[3]), strip(d.args[4])
+        rep.check(LP.is_ln(ln) and LP.is_ld(ld), 'R9', 'cached-target', d.where(), 'operates on (self.layers_dir, layer_name)',
                   'cached_layer dispatches on a different layer: %s / %s' % (vstr(ld), vstr(ln)))
     else:
         rep.unproven('R9', 'cached-dispatch', cl.file, 'cached_layer does not call handle_layer exactly once')
